@@ -84,6 +84,20 @@ def rand_feature_grammar(rng):
         rng.shuffle(extra)
         prods = prods + extra
         profile += "+nullable-agreement"
+    if rng.random() < 0.2:
+        # the same constituent with a shared unknown (N and P are one variable) and with two specific, different values; the continuation needs the latter
+        for v in ("X1", "Y1"):
+            if v not in vs:
+                vs.append(v)
+        ts = base["terms"]
+        v1, v2 = (DOM[0], DOM[1]) if rng.random() < 0.5 else (DOM[1], DOM[0])
+        extra = [{"head": base["start"], "hfs": {}, "body": [["V", "X1", {"N": "?a", "P": "?b"}], ["V", "Y1", {"N": "?a", "P": "?b"}]]},
+                 {"head": "X1", "hfs": {"N": "?c", "P": "?c"}, "body": [["T", ts[0], {}]]},
+                 {"head": "X1", "hfs": {"N": v1, "P": v2}, "body": [["T", ts[0], {}]]},
+                 {"head": "Y1", "hfs": {"N": v1, "P": v2}, "body": [["T", ts[-1], {}]]}]
+        rng.shuffle(extra)
+        prods = (extra + prods) if rng.random() < 0.5 else (prods + extra)
+        profile += "+shared-unknown-vs-specific"
     return {"vars": vs, "terms": base["terms"], "start": base["start"], "fprods": prods, "profile": profile, "prods": base["prods"]}
 
 
@@ -134,7 +148,7 @@ def rand_fs(rng, depth=2):
         if depth > 0 and rng.random() < 0.35:
             out[f] = rand_fs(rng, depth - 1)
         else:
-            out[f] = rng.choice([None, "1", "2", "3"])
+            out[f] = rng.choice([None, "1", "2", "3", 0, ""])
     return out
 
 
@@ -146,7 +160,7 @@ def generate(ctx):
         k = i % 4
         if k == 3:
             def flat():
-                nodes = [rng.choice([None, None, "1", "2"]) for _ in range(rng.randint(1, 3))]
+                nodes = [rng.choice([None, None, "1", "2", 0]) for _ in range(rng.randint(1, 3))]
                 feats = {f: rng.randrange(len(nodes)) for f in rng.sample(["a", "b", "c", "d"], rng.randint(1, 4))}
                 return {"feats": feats, "nodes": nodes}
             cases.append({"op": "unify_shared", "g": {"profile": "fs-shared", "prods": [], "terms": []}, "a": flat(), "b": flat(), "c": flat()})
